@@ -1935,7 +1935,9 @@ fn gen_range(rng: &mut Prng, m: &IdealTree, uniq: &mut u64) -> (usize, Vec<Fr>) 
     let len = len.min(40);
     // pmtree's batch insertion walks every leaf of the right half below the written range: at depth 20 a
     // multi-leaf range in the right part of the tree takes ~10 s, so deep trees keep ranges on the left
-    let start = if m.depth >= 16 && len > 1 && start >= (1 << 14) { start % (1 << 14) } else { start };
+    // (a single-leaf range goes through the same batch insertion and allocates gigabytes there: measured 2.2 GB resident for
+    // set_range(524287, [v]) at depth 20 - so every range of a deep tree stays on the left; single writes go anywhere)
+    let start = if m.depth >= 16 && len >= 1 && start >= (1 << 14) { start % (1 << 14) } else { start };
     (start, gen_vals(rng, len, uniq))
 }
 
@@ -1959,6 +1961,14 @@ fn gen_removals(rng: &mut Prng, m: &IdealTree, start: usize, n: usize) -> Vec<us
     };
     if v.len() > 12 {
         v.truncate(12);
+    }
+    if m.depth >= 16 {
+        // a removal batch is rewritten as one range over [smallest, largest]: keep that span on the left of a deep tree
+        for i in v.iter_mut() {
+            if *i < cap && *i >= (1 << 14) {
+                *i %= 1 << 14;
+            }
+        }
     }
     if rng.chance(1, 5) && v.len() > 1 {
         // unsorted with a duplicate
